@@ -105,6 +105,8 @@ type aluTr struct {
 	callHook func(e *ast.CallExpr, env map[string]string) (string, bool)
 	selHook  func(e *ast.SelectorExpr, env map[string]string) (string, bool)
 	exprHook func(e ast.Expr, env map[string]string) (string, bool) // sees every expression first (floats)
+	// optional: proves that a signed non-constant shift count cannot be negative (inner loops with constant bounds)
+	shiftOK func(e ast.Expr) bool
 }
 
 func (t *aluTr) fail(n ast.Node, f string, a ...any) string {
@@ -242,7 +244,7 @@ func (t *aluTr) binary(e *ast.BinaryExpr, env map[string]string) string {
 		return fmt.Sprintf("(%s &&& ~~~%s)", x, y)
 	case token.SHL, token.SHR:
 		if _, ys, _ := basicWS(t.info.TypeOf(e.Y)); ys {
-			if tv, ok := t.info.Types[e.Y]; !ok || tv.Value == nil {
+			if tv, ok := t.info.Types[e.Y]; (!ok || tv.Value == nil) && !(t.shiftOK != nil && t.shiftOK(e.Y)) {
 				return t.fail(e, "shift by a signed non-constant count (Go panics on negative counts)")
 			}
 		}
